@@ -181,8 +181,21 @@ def build_for(case):
 
             async def run():
                 for offset, volume, limit in spec['rounds']:
-                    if offset:
-                        await (time + offset)
+                    prepared = None
+                    if case['index'] % 3 == 1 and spec.get('until') is None:
+                        # the request is made now, the transfer begins when it is awaited;
+                        # and a request that is dropped unstarted never takes part at all
+                        prepared = pipe.transfer(volume, float('inf') if limit == 'inf' else limit)
+                        pipe.transfer(volume + 1).close()
+                        checker.stats['transfers_prepared_early'] = checker.stats.get(
+                            'transfers_prepared_early', 0) + 1
+                    try:
+                        if offset:
+                            await (time + offset)
+                    except BaseException:
+                        if prepared is not None:
+                            prepared.close()
+                        raise
                     arena.log(name, 'transfer-start', volume, limit)
                     checker.inflight += 1
                     checker.max_inflight = max(checker.max_inflight, checker.inflight)
@@ -192,7 +205,10 @@ def build_for(case):
                             async with usim.until(time + spec['until']):
                                 await pipe.transfer(float('inf'), limit)
                             return
-                        await pipe.transfer(volume, float('inf') if limit == 'inf' else limit)
+                        if prepared is not None:
+                            await prepared
+                        else:
+                            await pipe.transfer(volume, float('inf') if limit == 'inf' else limit)
                     except BaseException:
                         checker.stats['transfers_struck'] += 1
                         raise
